@@ -261,3 +261,26 @@ func H_C18_unknown_applies() {
 	vAssert(o1 == o3, "on every call: "+expr)
 	vCover("reached")
 }
+
+// H_C18_hook_every_value: the hook is consulted for every value the walk
+// reaches, on every call — also for values sitting in interface-typed slots
+// next to plain ones, after plain values of the same static type were seen,
+// and on later calls of the same evaluator.
+func H_C18_hook_every_value() {
+	v, w := vInt8(), vInt8()
+	wrapped := map[string]interface{}{"name": "n", "w": wrapC06{V: v}, "l": []interface{}{w, wrapC06{V: v}, &wrapC06{V: map[string]interface{}{"k": v}}}}
+	plain := map[string]interface{}{"name": "n", "w": v, "l": []interface{}{w, v, map[string]interface{}{"k": v}}}
+	expr := []string{`w == 1`, `l.1 == 1`, `l.0 == 1 or l.1 == 1`, `any l as e { e == 1 }`, `l.2.k == 1`, `name == "n" and w == 1`, `all l as i, e { i == 2 or e != 1 }`}[vChoose(7)]
+	eh, err := CreateEvaluator(expr, WithHookFn(hookUnwrapC06))
+	vAssume(err == nil)
+	ep := mustCreate(expr)
+	if vBool() {
+		evalO(eh, plain) // an earlier call on data the hook leaves alone
+	}
+	o1, _, _ := evalO(eh, wrapped)
+	o2, _, _ := evalO(ep, plain)
+	vAssert(o1 == o2, "the operators see the hook's replacement for every wrapped value: "+expr)
+	o3, _, _ := evalO(eh, wrapped)
+	vAssert(o3 == o1, "and on every call: "+expr)
+	vCover("reached")
+}
